@@ -125,7 +125,6 @@ Definition run_enc (d : doc) (v : eversion) (rnd ivs : list bytes) : sx :=
     | DErr e => sx_err e
     | DErrMid e => sx_err e
     | DPanic => SL [sx_id "panic"]
-    | DUnmodelled => SL [sx_id "unmodelled"]
     end
   end.
 
@@ -139,13 +138,23 @@ Definition reenc_ok (d : doc) (v : eversion) (encd : doc) : bool :=
   | _ => false
   end.
 
+(* [P] carries no model of the stream filters ([p_decompress] answers None: right for a stream without Filter,
+   where Stream::decompress fails in filters()).  decrypt_raw calls it on the streams of Type ObjStm only; a case
+   in which such a stream has a Filter entry is answered "unmodelled" -- by the harness too, which looks at the
+   same entry (names are not encrypted) -- and is judged by the direct verdict alone. *)
+Definition filtered_objstm (d : doc) : bool :=
+  existsb (fun io => match snd io with
+                     | OStream sd _ => has_type sd N_ObjStm && dict_has sd K_Filter
+                     | _ => false
+                     end) (d_objects d).
+
 Definition run_dec (encd : doc) (pw : bytes) : sx :=
   match doc_decrypt P encd pw with
-  | DOk d' st => SL [sx_id "ok"; doc_to_sx d'; sx_bytes (es_key st)]
+  | DOk d' st => if filtered_objstm encd then SL [sx_id "unmodelled"]
+                 else SL [sx_id "ok"; doc_to_sx d'; sx_bytes (es_key st)]
   | DErr e => sx_err e
   | DErrMid e => sx_err e
   | DPanic => SL [sx_id "panic"]
-  | DUnmodelled => SL [sx_id "unmodelled"]
   end.
 
 Definition has_flag (x : sx) (f : String.string) : bool :=
